@@ -8,6 +8,8 @@ package anytype
 import (
 	"math"
 	"strconv"
+	"strings"
+	"unicode/utf8"
 )
 
 /*
@@ -190,7 +192,58 @@ Returns:
 */
 func (ego *atString) serialize() string {
 	val := ego.getVal().(string)
-	return strconv.Quote(val)
+	return quoteJSON(val)
+}
+
+/*
+Quotes a string as a JSON string literal (RFC 8259).
+Quotation marks, backslashes and control characters are escaped, everything else is kept as is
+(bytes which are not valid UTF-8 are replaced by U+FFFD).
+Parameters:
+  - str - string to quote.
+
+Returns:
+  - quoted string.
+*/
+func quoteJSON(str string) string {
+	const hex = "0123456789abcdef"
+	var result strings.Builder
+	result.WriteByte('"')
+	for i := 0; i < len(str); i++ {
+		char := str[i]
+		switch {
+		case char == '"' || char == '\\':
+			result.WriteByte('\\')
+			result.WriteByte(char)
+		case char == '\n':
+			result.WriteString(`\n`)
+		case char == '\r':
+			result.WriteString(`\r`)
+		case char == '\t':
+			result.WriteString(`\t`)
+		case char == '\b':
+			result.WriteString(`\b`)
+		case char == '\f':
+			result.WriteString(`\f`)
+		case char < 0x20:
+			result.WriteString(`\u00`)
+			result.WriteByte(hex[char>>4])
+			result.WriteByte(hex[char&0xF])
+		case char < utf8.RuneSelf:
+			result.WriteByte(char)
+		default:
+			// bytes which are not valid UTF-8 cannot be represented, replacement character is used
+			r, size := utf8.DecodeRuneInString(str[i:])
+			if r == utf8.RuneError && size == 1 {
+				result.WriteString(`\ufffd`)
+			} else {
+				result.WriteString(str[i : i+size])
+				i += size - 1
+			}
+		}
+	}
+	result.WriteByte('"')
+	return result.String()
 }
 
 /*
